@@ -17,6 +17,8 @@ def gen(tier, rng):
             out.append(("PKCE %s %s" % (m, C.tb("a" * n)), "len-sweep"))
         for s in ["é" * 21 + "a", "é" * 22, "日" * 14, "日" * 15, "\U0001F600" * 10 + "abc", "\U0001F600" * 11, "é" * 64, "é" * 65]:
             out.append(("PKCE %s %s" % (m, C.tb(s)), "non-ascii-byte-length"))
+        for s in [" " + "a" * 43, "a" * 43 + "\n", "\t" + "b" * 50 + "\r\n", " " * 43, "a" * 20 + "  " + "b" * 30, "\u00a0" + "c" * 45 + "\u2003", "d" * 127 + " "]:
+            out.append(("PKCE %s %s" % (m, C.tb(s)), "whitespace-verifier"))
     n = 1500 if tier == "quick" else 100000
     pool = ["\x00", " ", "&", "=", "%", "+", "é", "日", "\n", "#"]
     for _ in range(n):
